@@ -55,14 +55,14 @@ def pool(M, ctx):
     out.append(("tetra_raw", M.distort(M.tetrahedron(), rng, **mild)))
     if not ctx.quick:
         out += [("icosa", M.distort(M.icosahedron(), rng, **mild)), ("voxring", M.voxel_ring()), ("shell", M.refine(M.nested_shell(), 1)),   # (refined: elements not larger than the gap between the two surfaces)
-                ("dented", M.distort(M.dented_block(), rng, **mild)), ("octa_r2", M.distort(M.refine(M.octahedron(), 2), rng, **mild)),
+                ("dented", M.distort(M.dented_block(), rng, **mild)),
                 ("ellipsoid", M.distort(M.project_to_ellipsoid(M.refine(M.icosahedron(), 1), (1.0, 0.8, 0.6)), rng, **mild)),
-                ("cube_r1", M.distort(M.refine(M.cube(), 1), rng, **mild)), ("torus7x4", M.distort(M.torus(7, 4), rng, **mild)),
+                ("cube_r1", M.distort(M.refine(M.cube(), 1), rng, **mild)),
                 ("tetra_strong", M.distort(M.tetrahedron(), rng)), ("cube_strong", M.distort(M.cube(), rng)),
                 ("torus_strong", M.distort(M.torus(6, 4), rng))]
         base = list(out)
-        for name, m in base[:6]:   # (base[6] is the tiny cube of the core pool)
-            for s, t in ((1e-5, 0.0), (1e5, 0.0), (1.0, 1e3)):
+        for name, m in base[:2]:   # (time budget of the thorough tier: ~40 ladders, the expensive part is orders >= 14 on the larger meshes)
+            for s, t in ((1e5, 0.0), (1.0, 1e3)):
                 mm = M.scale(m, s)
                 mm.V = mm.V + t * mm.diameter() * np.array([[0.3], [-0.5], [0.8]])
                 out.append(("%s|s%g|t%g" % (name, s, t), mm))
@@ -95,7 +95,7 @@ def main():
     topo_types = set()
     for mi_, (name, base) in enumerate(meshes):
         if not ctx.quick and not ctx.worker and mi_ >= 3:
-            nrel, nu = 1, 1   # thorough: three relabellings x two functions on the first three meshes, one each on the other ~30
+            nrel, nu = 0, 1   # thorough: three relabellings x two functions on the first three meshes, the plain numbering on the other ~20
         for r in range(nrel + 1):
             cidm = "%s:rel%d" % (name, r)
             rng = ctx.rng(name, r)
